@@ -135,7 +135,10 @@ def own_chemical(cid, family):
 # ====================================================================== C08 universe
 
 POOL8 = ['Water', 'Ethanol', 'Methanol', 'Propanol', 'Butanol', 'Acetone', 'Hexane', 'Heptane',
-         'Octane', 'Benzene', 'Toluene', 'EthylAcetate', 'Pentane', 'Cyclohexane']
+         'Octane', 'Benzene', 'Toluene', 'EthylAcetate', 'Pentane', 'Cyclohexane',
+         # a volatile chemical WITHOUT Dortmund groups: the group-contribution kernel has to leave its activity
+         # coefficient at one and write the others' to the right places, wherever it stands in the list
+         'SO2']
 ALKANES = {'Pentane', 'Hexane', 'Heptane', 'Octane', 'Cyclohexane'}
 T_LO, T_HI = 260.0, 480.0
 P_LO, P_HI = 5e3, 3e6
@@ -192,7 +195,7 @@ Z_ALPHABET = [0.0, 0.0, 1e-9, 1e-6, 1e-4]
 SCALES = [2.0, 10.0, 0.01, 1e3, 3.7, 0.5]
 
 C08_OPS = ['point', 'point', 'point', 'stream_point', 'stream_point', 'round_trip', 'round_trip',
-           'order', 'order', 'scale', 'permute', 'single', 'edit']
+           'order', 'order', 'scale', 'permute', 'single', 'edit', 'use_gamma']
 
 # ---- frozen tolerances of C08
 # Derivation: a solve stops when |dx| < xtol (T_tol = 1e-9 K, P_tol = 1e-3 Pa) or |residual| < ytol
@@ -357,7 +360,7 @@ class PointWorld(BaseWorld):
             if ev is None:
                 continue
             ev['op'] = op
-            if op != 'edit' and self.cfg['faults'] and rngs.fault.random() < 0.5:
+            if op not in ('edit', 'use_gamma') and self.cfg['faults'] and rngs.fault.random() < 0.5:
                 ev['fault'] = self.gen_fault(rngs.fault, 2 if op in ('round_trip', 'order', 'scale', 'permute') else 1)
             reg = self.divert(ev)
             if reg == 'skip':
@@ -368,6 +371,13 @@ class PointWorld(BaseWorld):
 
     def candidate(self, op, r):
         names = sorted(self.streams)
+        if op == 'use_gamma':
+            # another owner of the solver objects' SHARED activity-coefficient model uses it directly
+            ids = self.gen_ids(r)
+            x = self.gen_z(r, len(ids))
+            tot = sum(x) or 1.0
+            return {'ids': ids, 'x': [v / tot for v in x], 'T': round(r.uniform(self.pk.Tlo, self.pk.Thi), 2),
+                    'kind': r.choice(['bubble', 'dew']), 'how': r.choice(['call', 'helper', 'helper'])}
         if op == 'point':
             return {'q': self.gen_query(r)}
         if op == 'single':
@@ -451,7 +461,7 @@ class PointWorld(BaseWorld):
 
     def divert(self, ev):
         """Generator-side avoidance of listed regions. -> 'skip' | None (ev may be edited)"""
-        if ev['op'] == 'edit':
+        if ev['op'] in ('edit', 'use_gamma'):
             return None
         if 'C08-unnormalised-z' in self.regions and ev['op'] == 'scale' and self.unnormalised(ev):
             self.stats['region:C08-unnormalised-z'] += 1
@@ -499,6 +509,11 @@ class PointWorld(BaseWorld):
         op = ev.get('op')
         if op == 'noop':
             return True
+        if op == 'use_gamma':
+            ids = ev.get('ids') or []
+            return (bool(ids) and len(set(ids)) == len(ids) and all(i in self.pk.pos for i in ids)
+                    and len(ev.get('x', ())) == len(ids) and min(ev['x']) >= 0 and sum(ev['x']) > 0
+                    and self.pk.Tlo <= ev.get('T', 0) <= self.pk.Thi)
         if op == 'edit':
             if ev.get('stream') not in self.streams:
                 return False
@@ -699,6 +714,21 @@ class PointWorld(BaseWorld):
         if not self.pre(ev):
             return 'skip:pre'
         self.stats['op:' + op] += 1
+        if op == 'use_gamma':
+            with faults.disarmed():
+                obj = self.pk.bp(ev['ids']) if ev['kind'] == 'bubble' else self.pk.dp(ev['ids'])
+            g = getattr(obj, 'gamma', None)
+            x = np.array(ev['x'], float)
+            try:
+                if ev['how'] == 'helper' and hasattr(g, 'activity_coefficients'):
+                    g.activity_coefficients(x, ev['T'])
+                    self.stats['probe:shared_gamma_helper_used'] += 1
+                elif g is not None:
+                    g(x, ev['T'])
+            except Exception as e:
+                self.stats['exc:use_gamma:' + type(e).__name__] += 1
+            self.last = ('use_gamma', ev['how'])
+            return 'ok'
         if op == 'edit':
             s = self.streams[ev['stream']]
             if 'T' in ev:
@@ -968,6 +998,8 @@ class PointWorld(BaseWorld):
     def shared_touch(self, ev):
         if ev.get('op') in (None, 'noop', 'edit'):
             return None
+        if ev.get('op') == 'use_gamma':
+            return ('use_gamma', ev.get('how'), len(ev.get('ids', ())))
         q = ev['q']
         return (q['kind'], q['spec'], len(q['ids']), q.get('via', 'direct'), bool(ev.get('fault')))
 
@@ -1202,6 +1234,13 @@ class SplitWorld(BaseWorld):
                 ms.imol[ent[1]] = np.array(ent[2], dtype=float) * k
             elif kind == 'reset':
                 ms.reset_cache()
+            elif kind == 'query':
+                try:
+                    q = ms.lle
+                    q.method = self.cfg['method']
+                    q(T=ent[1], update=False)
+                except Exception:
+                    pass
             elif kind == 'restart':
                 ms = restart_copy(ms)
             elif kind == 'lle':
@@ -1306,7 +1345,7 @@ class SplitWorld(BaseWorld):
         names = sorted(self.streams)
         for _ in range(40):
             if self.family == 'lle':
-                op = rngs.sched.choices(['lle', 'edit', 'restart', 'reset_cache'], [10, 3, 1, 1])[0]
+                op = rngs.sched.choices(['lle', 'edit', 'restart', 'reset_cache', 'lle_query'], [10, 3, 1, 1, 1.5])[0]
             else:
                 op = rngs.sched.choices(['sle', 'edit', 'restart', 'reset_cache'], [10, 3, 1, 1])[0]
             # decanter / crystalliser tasks: a task works on ONE stream for 2-6 operations (so that the
@@ -1347,6 +1386,9 @@ class SplitWorld(BaseWorld):
 
     def candidate(self, op, s, r):
         pk = self.pk
+        if op == 'lle_query':
+            # lle(T, update=False): asks for (chemicals, K, phi) at another temperature without touching the stream
+            return {'op': 'lle_query', 'stream': s, 'T': float(r.choice([round(r.uniform(*LLE_T), 2), 300.0, 350.0, 320.0]))}
         if op == 'lle':
             mem = self.memory(s)
             if mem is not None and r.random() < 0.5:
@@ -1442,6 +1484,10 @@ class SplitWorld(BaseWorld):
             return any(tot[self.pk.pos[i]] > 0 for i in self.pk.solutes)
         if op in ('restart', 'reset_cache'):
             return True
+        if op == 'lle_query':
+            if self.family != 'lle' or not (LLE_T[0] <= ev.get('T', 0) <= LLE_T[1]):
+                return False
+            return self.lle_domain_ok(rows['L'] + rows['l'])
         if op == 'lle':
             if self.family != 'lle' or not (LLE_T[0] <= ev.get('T', 0) <= LLE_T[1]):
                 return False
@@ -1522,6 +1568,29 @@ class SplitWorld(BaseWorld):
                 self.log[name].append(('reset',))
                 self.last[name] = 'reset'
                 return 'ok'
+            if op == 'lle_query':
+                ms = self.streams[name]
+                before = self.rows(ms)
+                T0, P0 = float(ms.T), float(ms.P)
+                lle = ms.lle
+                lle.method = self.cfg['method']
+                try:
+                    lle(T=ev['T'], update=False)
+                    out = 'ok'
+                except Exception as e:
+                    self.stats['exc:lle_query:' + type(e).__name__] += 1
+                    out = 'exc:' + type(e).__name__
+                self.log[name].append(('query', ev['T']))
+                self.last[name] = 'query'
+                after = self.rows(ms)
+                # (the query pools both liquids into 'L' - observed on the unchanged tree, nothing in C15 speaks about
+                # it; only what C15/C03 do speak about is demanded: totals, T and P stay)
+                tb = sum(before.values())
+                ta = sum(after.values())
+                if out == 'ok' and (not np.allclose(tb, ta, rtol=1e-12, atol=0.) or float(ms.T) != T0 or float(ms.P) != P0):
+                    self.fail('query-changed-stream', f'lle(T={ev["T"]}, update=False) changed the totals, T or P of the '
+                              f'stream', {'event': ev})
+                return out
             self.stats['mechanism_ops'] += 1
             if op == 'lle':
                 return self.do_lle(ev)
@@ -1934,7 +2003,7 @@ class SplitWorld(BaseWorld):
     def shared_touch(self, ev):
         if ev.get('op') in ('lle', 'sle'):
             return (ev['stream'], ev['op'], ev.get('check'), bool(ev.get('fault')))
-        if ev.get('op') in ('edit', 'restart', 'reset_cache'):
+        if ev.get('op') in ('edit', 'restart', 'reset_cache', 'lle_query'):
             return (ev['stream'], ev['op'])
         return None
 
